@@ -111,6 +111,40 @@ Fixpoint final_state (s : state) (ops : list op) : state :=
   | o :: rest => final_state (fst (step s o)) rest
   end.
 
+(** ** Manager objects created ahead of use, and the decorator form.
+
+    [validators.disabled()] only builds a generator-based manager object: nothing of its body runs
+    until [__enter__].  So creating a manager ([XCreate]) is no operation on the switch, entering a
+    manager created earlier is the plain [OEnter] at the state of THAT moment, and calling a function
+    decorated with [@validators.disabled()] ([XCallDecorated]) is a complete enter/exit around the
+    call (contextlib re-creates the manager for every call). *)
+Inductive xop :=
+| XBase (o : op)
+| XCreate
+| XCallDecorated.
+
+Definition xstep (s : state) (x : xop) : state * outcome :=
+  match x with
+  | XBase o => step s o
+  | XCreate => (s, Done)
+  | XCallDecorated => exit_disabled (enter_disabled s) ExitNormal
+  end.
+
+(** what the decorated function sees while it runs *)
+Definition inside_decorated (s : state) : bool := run (enter_disabled s).
+
+Fixpoint run_xops (s : state) (ops : list xop) : list obs :=
+  match ops with
+  | [] => []
+  | o :: rest => let '(s', oc) := xstep s o in observe s' oc :: run_xops s' rest
+  end.
+
+Fixpoint final_xstate (s : state) (ops : list xop) : state :=
+  match ops with
+  | [] => s
+  | o :: rest => final_xstate (fst (xstep s o)) rest
+  end.
+
 (** ** The reference: block-structured programs and a two-line machine.
 
     A program is a forest of plain operations and [with] blocks.  The reference
